@@ -39,6 +39,7 @@ Specs are plain json-able data:
                     | ['series', start, step, n]
   pattern  := ['pbind', {key: valspec}]
             | ['pmono', instrument, {key: valspec}]
+            | ['pmono_artic', instrument, {key: valspec}]
             | ['ppar', [pattern...]] | ['pchain', pbind, pattern]
             | ['pdur', dur, pattern] | ['pdelta', time, pattern]
             | ['pseq', [pattern...]] | ['pn', n, pattern]
@@ -328,6 +329,35 @@ def timeline(p):
             t += e.delta
         return Timeline(items, t, [(t, mid, True)] if created else [],
                         flags=flags)
+    if kind == 'pmono_artic':
+        # PmonoArtic help (the port: "support for PmonoArtic integrated through
+        # the articulate argument"): notes are slurred on one synth while
+        # sustain >= delta; a note with sustain < delta ends the slur - the
+        # synth is released `sustain` after that note's onset and the next
+        # note starts a new synth.  A note with sustain < delta outside a slur
+        # is an ordinary note.  (No rests: the help file does not define them.)
+        t, items, rel, voice = 0.0, [], [], None
+        for keys in _bind_events(p[2]):
+            keys = dict(keys)
+            r = resolve(keys)
+            slur = r.sustain >= r.delta
+            if voice is None and not slur:
+                keys['instrument'] = p[1]
+                e = Ev(keys, 'note')
+            elif voice is None:
+                _mono_counter[0] += 1
+                voice = _mono_counter[0]
+                e = Ev(keys, 'mono_on', (voice, p[1]))
+            else:
+                e = Ev(keys, 'mono_set', (voice, p[1]))
+                if not slur:
+                    rel.append((t + r.sustain, voice, True))
+                    voice = None
+            items.append((t, e))
+            t += e.delta
+        if voice is not None:
+            rel.append((t, voice, True))
+        return Timeline(items, t, rel)
     if kind == 'pdelta':
         tl = timeline(p[2])
         d = p[1]
@@ -428,7 +458,7 @@ def expand(p, shared):
     kind = p[0]
     if kind == 'use':
         return expand(shared[p[1]], shared)
-    if kind in ('pbind', 'pmono'):
+    if kind in ('pbind', 'pmono', 'pmono_artic'):
         return p
     if kind in ('ppar', 'pseq'):
         return [kind, [expand(c, shared) for c in p[1]]]
